@@ -16,7 +16,8 @@ import msgpack
 import yaml
 from lxml import etree
 
-from spyne import Application, Service, rpc, Fault
+from spyne import Application, Service, rpc as _rpc, Fault
+from spyne.evmgr import EventManager
 from spyne.model.complex import ComplexModel, Array, Iterable
 from spyne.model.primitive import (Integer, Integer32, Unicode, Boolean, Double,
     Decimal, Date, DateTime, Time, Duration, Uuid)
@@ -222,9 +223,11 @@ class Universe(object):
     """A fresh set of classes + one service class + metadata."""
 
     def __init__(self, rng, family='prims', tns=None, n_prims=None,
-                                                                 with_sub=True):
+                                with_sub=True, on_service=None, ctl=None):
         self.family = family
-        self.ctl = Ctl()
+        self.ctl = ctl or Ctl()
+        self.on_service = on_service
+        self.method_evmgr = EventManager(None)
         self.tns = tns or rng.choice(('tns', 'urn:verif:app', 'http://v/x'))
         self.methods = {}
         self.params = {'family': family, 'tns': self.tns}
@@ -316,15 +319,20 @@ class Universe(object):
             return [Inner(k=i, s=u'%s%d' % (tag, i)) for i in range(n or 0)]
 
         def f_gen(ctx, n, tag):
+            # a plain function returning a generator: entry is observable
+            # when spyne calls it, not when the body first runs
             ctl.calls.append(('gen', 'enter'))
             ctl.hit('fn')
             m = ctl.gen_len if ctl.gen_len is not None else (n or 0)
-            for i in range(m):
-                ctl.hit('gen:%d' % i)
-                ctl.calls.append(('gen', 'item'))
-                yield u'%s-%d' % (tag, i)
-            ctl.hit('gen:end')
-            ctl.calls.append(('gen', 'exhausted'))
+
+            def _items():
+                for i in range(m):
+                    ctl.hit('gen:%d' % i)
+                    ctl.calls.append(('gen', 'item'))
+                    yield u'%s-%d' % (tag, i)
+                ctl.hit('gen:end')
+                ctl.calls.append(('gen', 'exhausted'))
+            return _items()
 
         def f_multi(ctx, a):
             ctl.calls.append(('multi', 'enter'))
@@ -357,6 +365,12 @@ class Universe(object):
             ctl.hit('fn')
             return (a or 0) + len(s or u'')
 
+        evmgr = self.method_evmgr
+
+        def rpc(*a, **kw):
+            kw['_evmgr'] = evmgr
+            return _rpc(*a, **kw)
+
         ns = {}
         ns['strict'] = rpc(s_rng.cls, s_pat.cls, _returns=Integer)(f_strict)
         ns['prims'] = rpc(*[s.cls for _, s in flat_args], _returns=Unicode)(
@@ -372,6 +386,8 @@ class Universe(object):
         ns['bad'] = rpc(Integer, _returns=Integer)(f_bad)
         self.service = type('Svc', (Service,), ns)
         self.services = [self.service]
+        if self.on_service is not None:
+            self.on_service(self.service)
         if with_sub:
             # an inheriting service: must inherit Svc's listeners (C14)
             def f_sub(ctx, a):
@@ -502,6 +518,10 @@ class Request(object):
     def with_body(self, body):
         return Request(self.verb, self.path, self.qs, self.ctype, body,
                                                                     self.label)
+
+    def _relabel(self, label):
+        self.label = label
+        return self
 
 
 def _xml_value(parent, ns, name, spec, value):
